@@ -63,6 +63,8 @@ Resolve(h, env, in) ==
                signer |-> IF Get(in, "sig", "own") # "own" THEN "bad" ELSE in.party,     \* "bad" (another key), "zero64" / "junk0" / "junk63" (no signature at all)
                rec |-> RecOf(Get(in, "rec", "none")), recname |-> Get(in, "rec", "none"),
                key |-> Name("k", env.nk + 1), n |-> Name("m", env.nm + 1), msg |-> Msg(in.msg)]
+    [] in.k = "PeerMessage" /\ Get(in, "key", "cur") = "zero" ->      \* sealed under a key nobody negotiated (the all-zero key), naming in.claim
+         [k |-> "msg", from |-> in.from, src |-> in.claim, key |-> "zero", n |-> Name("m", env.nm + 1), msg |-> Msg(in.msg)]
     [] in.k = "PeerMessage" ->
          LET kid == IF Get(in, "key", "cur") = "cur" THEN CurKid(env, in.party) ELSE in.key IN
          IF kid = "none" \/ ClaimOf(env, kid) = "none" THEN [k |-> "Nop"]
